@@ -456,6 +456,19 @@ func runC12(c *Ctx) {
 				c.mismatch(Mismatch{Kind: "spec", Backend: kind, Case: []string{line}, Impl: trunc(obs, 200), Model: trunc(model, 200), Spec: trunc(model, 200), Finger: finger})
 			}
 			c.hist("http:" + variant + ":" + strings.SplitN(model, " ", 2)[0])
+			// right after an accepted streaming upload: a streaming upload WITHOUT any framing (an empty
+			// body declared as 0 bytes) has no terminating chunk and is refused — whatever state the
+			// previous request left in the decoder
+			if r.Status == 200 && c.Rng.Intn(3) == 0 {
+				er := inst.Do(impl.Req{Method: "PUT", Path: "/" + bucket + "/empty-after-good", Body: &fragReader{data: nil, frags: nil},
+					Header: map[string]string{"X-Amz-Content-Sha256": "STREAMING-AWS4-HMAC-SHA256-PAYLOAD", "X-Amz-Decoded-Content-Length": "0", "Content-Length": "0"}})
+				c.R.Evaluations++
+				if er.Status == 200 || er.Panic != "" {
+					c.mismatch(Mismatch{Kind: "spec", Backend: kind, Case: []string{line, "# then: PUT with STREAMING-AWS4-HMAC-SHA256-PAYLOAD, X-Amz-Decoded-Content-Length: 0 and an empty body"},
+						Impl: fmt.Sprintf("status %d %s", er.Status, trunc(er.Panic, 60)), Spec: "rejected: the framing is incomplete (no terminating zero-size chunk)", Finger: "accepted-empty-stream-after-upload"})
+				}
+				c.hist("http:empty-stream-after-good-upload")
+			}
 		}
 		inst.Close()
 	}
